@@ -38,15 +38,27 @@ def kx(name: str) -> str:
 
 
 class Ids:
-    """opaque LLSD values <-> small integers (by repr)"""
-    def __init__(self):
-        self.by_repr = {}
-
+    """opaque LLSD values <-> integers: a checksum of the repr, so that the numbers are the same in every run
+    (a stored case can be replayed against its stored model observation)"""
     def get(self, v) -> int:
-        r = repr(v)
-        if r not in self.by_repr:
-            self.by_repr[r] = len(self.by_repr) + 1
-        return self.by_repr[r]
+        return zlib.crc32(repr(v).encode("utf8")) % 100000007
+
+
+def ordered_json(v):
+    """dict order is part of a mesh header (and replay files are written with sorted keys): dicts as item lists"""
+    if isinstance(v, dict):
+        return {"$items": [[k, ordered_json(x)] for k, x in v.items()]}
+    if isinstance(v, list):
+        return [ordered_json(x) for x in v]
+    return v
+
+
+def from_ordered_json(v):
+    if isinstance(v, dict) and set(v.keys()) == {"$items"}:
+        return {k: from_ordered_json(x) for k, x in v["$items"]}
+    if isinstance(v, list):
+        return [from_ordered_json(x) for x in v]
+    return v
 
 
 def is_seg_header(v) -> bool:
@@ -144,8 +156,26 @@ def convex_value(rng):
     return copy.deepcopy(MeshAsset.make_triangle().segments["physics_convex"])
 
 
+def seg_tree(spec):
+    """('lod' | 'convex' | 'simple', index) -> a decoded segment"""
+    t, i = spec
+    if t == "lod":
+        return lod_value(None)
+    if t == "convex":
+        return convex_value(None)
+    return copy.deepcopy(_SIMPLE[i])
+
+
+def materialize(segments):
+    """JSON-able segment specs -> {name: ('P', tree) | ('B', bytes)}"""
+    out = {}
+    for n, (t, v) in segments.items():
+        out[n] = ("P", seg_tree(v)) if t == "P" else ("B", bytes.fromhex(v))
+    return out
+
+
 def gen_write_case(rng, known):
-    """-> header (ordered dict), segments {k: ('P', value) | ('B', bytes)}, raw {k: bytes}"""
+    """-> header (ordered dict, JSON-able), segments {k: ['P', tree spec] | ['B', hex]}, raw {k: hex}"""
     header = {}
     names = [n for n in known if rng.random() < 0.55]
     names += [n for n in _UNKNOWN if rng.random() < 0.2]
@@ -178,40 +208,41 @@ def gen_write_case(rng, known):
     segments, raw = {}, {}
     for n in names:
         r = rng.random()
-        if r < 0.08:
+        if r < 0.03:
             continue                                             # header without segment
         if n in _TEMPLATED:
-            val = convex_value(rng) if n == "physics_convex" else lod_value(rng)
+            tree = ["convex", 0] if n == "physics_convex" else ["lod", 0]
         else:
-            val = copy.deepcopy(rng.choice(_SIMPLE))
+            tree = ["simple", rng.randrange(len(_SIMPLE))]
         if r < 0.45:
-            segments[n] = ("P", val)
+            segments[n] = ["P", tree]
         elif r < 0.65:
-            segments[n] = ("B", real_deflate(n, val))
+            segments[n] = ["B", real_deflate(n, seg_tree(tree)).hex()]
         elif r < 0.72:
-            segments[n] = ("B", rng.choice((b"", b"\x00" * 4, b"junk")))
+            segments[n] = ["B", rng.choice((b"", b"\x00" * 4, b"junk")).hex()]
         elif r < 0.9:
-            raw[n] = real_deflate(n, val)
+            raw[n] = real_deflate(n, seg_tree(tree)).hex()
         else:                                                    # both: segments wins
-            segments[n] = ("P", val)
-            raw[n] = b"raw-loses"
-    if rng.random() < 0.06:
-        segments["not_in_header"] = ("P", {"a": 1})
+            segments[n] = ["P", tree]
+            raw[n] = b"raw-loses".hex()
     if rng.random() < 0.04:
-        raw["raw_not_in_header"] = b"x"
+        segments["not_in_header"] = ["P", ["simple", 0]]
+    if rng.random() < 0.04:
+        raw["raw_not_in_header"] = b"x".hex()
     return header, segments, raw
 
 
 def write_case_line(header, segments, raw, allow, ids: Ids):
     segs = []
-    for k, (t, v) in segments.items():
+    for k, (t, v) in materialize(segments).items():
         segs.append("%s:%s:%s" % (kx(k), t, (real_deflate(k, v) if t == "P" else v).hex()))
-    raws = ["%s:%s" % (kx(k), v.hex()) for k, v in raw.items()]
+    raws = ["%s:%s" % (kx(k), v) for k, v in raw.items()]
     return "MW %d | %s | %s | %s" % (1 if allow else 0, " ".join(header_entries(header, ids)), " ".join(segs), " ".join(raws))
 
 
 def write_observation(header, segments, raw, allow, ids: Ids):
-    out, exc = impl_write(header, {k: v for k, (t, v) in segments.items()}, raw, allow)
+    out, exc = impl_write(header, {k: v for k, (t, v) in materialize(segments).items()},
+                          {k: bytes.fromhex(v) for k, v in raw.items()}, allow)
     if out is None:
         return "ERR", exc
     try:
@@ -341,7 +372,7 @@ def correspond(ctx, CorrResult):
             continue
         lines.append(line)
         want.append(obs)
-        cases.append({"kind": "mesh-layout", "allow": allow, "header": repr(header)[:600], "line": line, "exc": exc})
+        cases.append({"kind": "mesh-layout", "allow": allow, "header": ordered_json(header), "segments": segments, "raw": raw, "exc": exc})
         dist["MW"] += 1
         dist["MW-err"] += obs == "ERR"
     # ---- sort
@@ -452,7 +483,9 @@ def replay_case(case):
             return (mk != [kx(k) for k in m.segments.keys()]) or (case["incl"] and ml.split(" | R")[1].strip() != obs.split(" R ")[1].strip()), \
                 {"impl_keys": list(m.segments.keys()), "model": ml[:300]}
         return obs != case["model_line"], {"impl": obs, "model": case["model_line"][:300]}
-    return False, "mesh-layout cases are replayed by re-running the suite (the case holds live objects only as text)"
+    obs, _ = write_observation(from_ordered_json(case["header"]), case["segments"], case["raw"], case["allow"], Ids())
+    obs = " ".join(obs.split())
+    return obs != case["model_line"], {"impl": obs[:300], "model": case["model_line"][:300]}
 
 
 # ----------------------------------------------------------------------------------------
